@@ -813,6 +813,15 @@ impl SvcParamValue {
             }
         };
 
+        // every parameter kind has to use up its whole value (e.g. `port` is exactly 2 octets,
+        // RFC 9460 section 7.2); otherwise the trailing octets would silently disappear
+        if !decoder.is_empty() {
+            return Err(DecodeError::IncorrectRDataLengthRead {
+                read: len - decoder.len(),
+                len,
+            });
+        }
+
         Ok(value)
     }
 }
